@@ -6,6 +6,7 @@ import (
 
 	"google.golang.org/protobuf/encoding/prototext"
 
+	"verif/fw"
 	"verif/oracle"
 )
 
@@ -18,6 +19,27 @@ func init() {
 	if len(os.Args) >= 3 && os.Args[1] == childCmd {
 		os.Exit(CLI(append([]string{"import"}, os.Args[2:]...)))
 	}
+}
+
+// GenCLI implements `gen <seed> <case> [tier]`: print the document of a case (its file
+// name and importer format go to stderr).
+func GenCLI(args []string) int {
+	var seed uint64
+	var c int
+	if len(args) < 3 {
+		fmt.Fprintln(os.Stderr, "usage: gen <seed> <case> [tier]")
+		return 2
+	}
+	fmt.Sscan(args[1], &seed)
+	fmt.Sscan(args[2], &c)
+	tier := "quick"
+	if len(args) > 3 {
+		tier = args[3]
+	}
+	dc := caseFor(&fw.Ctx{Seed: seed, Tier: tier, Case: c}, c)
+	fmt.Fprintf(os.Stderr, "file=%s format=%s importer-format=%q\n", dc.file, dc.format, dc.formatName)
+	fmt.Print(dc.text)
+	return 0
 }
 
 // CLI implements `import <path> [format]` and `probe <path> [format]`.
